@@ -100,7 +100,7 @@ def cases_for(tier):
     if tier == "thorough":
         return ol.lattice([5, 7, 8, 9, 11, 13, 17], [4, 8, 12, 16, 20, 24, 32], "geo,A11,S,Scache,linesonly", tier,
                           need_nt4=True, cycle_offsets=(0, 1, 2), extra={"tlist": "1,3"})
-    return ol.lattice([5, 6, 7, 8, 9, 11], [4, 8, 12, 16], "geo,A11,S,Scache,linesonly", tier, need_nt4=True, extra={"tlist": "1,3"})
+    return ol.lattice([5, 6, 7, 8, 9, 11], [4, 8, 12, 16], "geo,A11,S,Scache,linesonly", tier, cycle_offsets=(0, 1), need_nt4=True, extra={"tlist": "1,3"})
 
 
 def main(tier):
